@@ -2,6 +2,7 @@ package main
 
 import (
 	"fmt"
+	"strings"
 	"time"
 )
 
@@ -56,6 +57,34 @@ func checkC01(c *Ctx) error {
 	if rp.replayed == 0 {
 		return fmt.Errorf("no case was replayed")
 	}
+	// 3. case folding: lower-case sources, subjects with upper-case letters, the i flag
+	rpf, err := c.newAsmReplayer(1, 25)
+	if err != nil {
+		return err
+	}
+	foldLines := "3"
+	if c.Tier == "thorough" {
+		foldLines = "4"
+	}
+	fx, err := c.runTLC(TLCRun{Module: "MC_C01", Seed: c.Seed, Timeout: 40 * time.Minute,
+		Constants: with("PoolSel", `= "fold"`, "MaxLines", "= "+foldLines, "MaxDepth", "= 1", "Export", "= TRUE", "Theorem", "= TRUE"),
+		Invs:      []string{"Compiles", "Refines", "ExportCase"}}, func(raw []byte) error {
+		// only programs with the i flag add something over the core pool
+		if !strings.HasPrefix(string(raw), `{"poolinfo"`) && !strings.Contains(string(raw), `##!+ i`) {
+			return nil
+		}
+		return rpf.onCase(raw)
+	})
+	ferr = rpf.finish()
+	if err != nil {
+		return err
+	}
+	if ferr != nil {
+		return ferr
+	}
+	c.Cov["fold_programs_replayed"] = rpf.replayed
+	ex.Distinct += fx.Distinct
+	ex.Generated += fx.Generated
 	c.Cov["states"] = th.Distinct + ex.Distinct
 	c.Cov["transitions"] = th.Generated + ex.Generated
 	c.Cov["theorem_states"] = th.Distinct
